@@ -7,7 +7,7 @@ package config
 
 // C13 / C14: inverting a search-attribute translation flips the direction and keeps the mappings, so
 // inverting twice restores the original view.
-//@ contract (SearchAttributeTranslation).Inverse
+//@ contract pure (SearchAttributeTranslation).Inverse
 //@   props C13 C14
 //@   ensures result.inverted == !s.inverted && result.inner == s.inner
 //@   assigns nothing
